@@ -172,6 +172,219 @@ theorem named_exchange_agrees (hr : r ∈ Gen.curveTable) (hn : r.n.Prime) (dA d
   · rw [h1]
   · rw [h2]
 
+/-! ### every way of loading the keys
+
+`named_exchange_agrees` lets each party generate its key and receive the peer's key as `to_string` bytes.  The same
+conclusion holds for **every** loader of `ecdh.py`: the private key generated, or loaded from its raw bytes, from DER
+(ssleay / PKCS#8, any point encoding) or from PEM; the peer's public key loaded from raw / uncompressed / compressed /
+hybrid bytes, from DER or from PEM — C09's round-trip theorems say that each of these loaders returns the key that was
+written. -/
+
+/-- `op` loads the private key `k` into an ECDH object (in one of the four ways) -/
+def PrivOp (k : Keys.SK) : Op Nat EcdhWire.WPt Int → Prop
+  | .genPriv d => d = (k.d : Int)
+  | .loadPrivBytes bs => k.toString = .ok bs
+  | .loadPrivDer bs => ∃ enc fmt, enc ≠ PointEnc.raw ∧ k.toDer enc fmt = .ok bs
+  | .loadPrivPem bs => ∃ enc fmt, enc ≠ PointEnc.raw ∧ k.toPem enc fmt = .ok bs
+  | _ => False
+
+/-- `op` loads the public key `q`, transported in one of its serialisations -/
+def PubOp (q : Keys.VK) : Op Nat EcdhWire.WPt Int → Prop
+  | .loadPubBytes bs => ∃ enc, q.toString enc = .ok bs
+  | .loadPubDer bs => ∃ enc, enc ≠ PointEnc.raw ∧ q.toDer enc = .ok bs
+  | .loadPubPem bs => ∃ enc, enc ≠ PointEnc.raw ∧ q.toPem enc = .ok bs
+  | _ => False
+
+theorem table_name_ne_toy : ∀ c ∈ Gen.curveTable, c.name ≠ "toy" := by decide +kernel
+
+omit [Fact r.p.Prime] in
+theorem index_self (hr : r ∈ Gen.curveTable) : EcdhWire.indexOfCurve #[r] r = some 0 := by
+  have := table_name_ne_toy r hr
+  simp [EcdhWire.indexOfCurve, this]
+
+omit [Fact r.p.Prime] in
+theorem locate_self {α β} (hr : r ∈ Gen.curveTable) (k : α) (crv : α → Keys.Curve) (f : Nat → α → β) (hk : crv k = r) :
+    EcdhWire.locate #[r] (.ok k) crv f = .ok (f 0 k) := by
+  simp [EcdhWire.locate, hk, index_self r hr]
+
+/-- the effect of a private-key loader on an object whose curve is set -/
+theorem priv_step (hr : r ∈ Gen.curveTable) (hn : r.n.Prime) (k : Keys.SK) (hk : SK.fromSecretExponent KeysWire.modelExt r k.d = .ok k)
+    (h1 : 1 ≤ k.d ∧ k.d < r.n) (op : Op Nat EcdhWire.WPt Int) (hop : PrivOp k op)
+    (s : State Nat EcdhWire.WPt) (hs : s.curve = some 0) :
+    (step (EcdhWire.env #[r]) s op).1 = { s with priv := some (EcdhWire.ofKeysSK 0 k) } := by
+  obtain ⟨cv, pv, pb⟩ := s
+  simp only at hs
+  subst hs
+  have hs : (⟨some 0, pv, pb⟩ : State Nat EcdhWire.WPt).curve = some 0 := rfl
+  have hp : r.p.Prime := Fact.out
+  obtain ⟨k', e', hc', _, _, _, hstr, _, hrest⟩ := C09.all_round_trips_model r hr hp hn k.d h1.1 h1.2
+  have ek : k' = k := by rw [hk] at e'; exact (Except.ok.inj e').symm
+  subst ek
+  have hcur : (#[r] : Array Keys.Curve)[0]! = r := rfl
+  have fin : ∀ res : Res (Keys.SK), res = .ok k' →
+      (viaLoader ⟨some 0, pv, pb⟩ (res.map (EcdhWire.ofKeysSK 0)) loadPrivate).1 = ⟨some 0, some (EcdhWire.ofKeysSK 0 k'), pb⟩ := by
+    intro res e; subst e
+    simp [viaLoader, Except.map, loadPrivate, EcdhWire.ofKeysSK]
+  cases op with
+  | genPriv d =>
+    simp only [PrivOp] at hop; subst hop
+    simp only [step]
+    show (viaLoader ⟨some 0, pv, pb⟩ ((SK.fromSecretExponent KeysWire.modelExt (#[r] : Array Keys.Curve)[0]! (k'.d : Int)).map
+      (EcdhWire.ofKeysSK 0)) loadPrivate).1 = _
+    exact fin _ hk
+  | loadPrivBytes bs =>
+    simp only [PrivOp] at hop
+    obtain ⟨bs', t1, t2⟩ := hstr
+    have : bs' = bs := by rw [hop] at t1; exact (Except.ok.inj t1).symm
+    subst this
+    simp only [step]
+    show (viaLoader ⟨some 0, pv, pb⟩ ((SK.fromString KeysWire.modelExt (#[r] : Array Keys.Curve)[0]! bs').map
+      (EcdhWire.ofKeysSK 0)) loadPrivate).1 = _
+    exact fin _ t2
+  | loadPrivDer bs =>
+    obtain ⟨enc, fmt, henc, t⟩ := hop
+    obtain ⟨bs', t1, t2, _⟩ := (hrest enc henc).2 fmt
+    have : bs' = bs := by rw [t] at t1; exact (Except.ok.inj t1).symm
+    subst this
+    simp only [step]
+    show (viaLoader ⟨some 0, pv, pb⟩ (EcdhWire.locate #[r] (SK.fromDer KeysWire.modelExt bs') (·.curve) EcdhWire.ofKeysSK) loadPrivate).1 = _
+    rw [t2, locate_self r hr k' (·.curve) EcdhWire.ofKeysSK hc']
+    exact fin (.ok k') rfl
+  | loadPrivPem bs =>
+    obtain ⟨enc, fmt, henc, t⟩ := hop
+    obtain ⟨_, _, _, pem, t1, t2⟩ := (hrest enc henc).2 fmt
+    have : pem = bs := by rw [t] at t1; exact (Except.ok.inj t1).symm
+    subst this
+    simp only [step]
+    show (viaLoader ⟨some 0, pv, pb⟩ (EcdhWire.locate #[r] (SK.fromPem KeysWire.modelExt pem) (·.curve) EcdhWire.ofKeysSK) loadPrivate).1 = _
+    rw [t2, locate_self r hr k' (·.curve) EcdhWire.ofKeysSK hc']
+    exact fin (.ok k') rfl
+  | setCurve _ => exact absurd hop id
+  | loadPriv _ => exact absurd hop id
+  | getPub => exact absurd hop id
+  | loadPub _ => exact absurd hop id
+  | loadPubBytes _ => exact absurd hop id
+  | loadPubDer _ => exact absurd hop id
+  | loadPubPem _ => exact absurd hop id
+  | secret => exact absurd hop id
+  | secretBytes => exact absurd hop id
+
+/-- the effect of a public-key loader on an object whose curve is set -/
+theorem pub_step (hr : r ∈ Gen.curveTable) (hn : r.n.Prime) (k : Keys.SK) (hk : SK.fromSecretExponent KeysWire.modelExt r k.d = .ok k)
+    (h1 : 1 ≤ k.d ∧ k.d < r.n) (op : Op Nat EcdhWire.WPt Int) (hop : PubOp k.vk op)
+    (s : State Nat EcdhWire.WPt) (hs : s.curve = some 0) :
+    (step (EcdhWire.env #[r]) s op).1 = { s with pub := some (EcdhWire.ofKeysVK 0 k.vk) } := by
+  obtain ⟨cv, pv, pb⟩ := s
+  simp only at hs
+  subst hs
+  have hs : (⟨some 0, pv, pb⟩ : State Nat EcdhWire.WPt).curve = some 0 := rfl
+  have hp : r.p.Prime := Fact.out
+  obtain ⟨k', e', _, _, hvc, _, _, hvstr, hrest⟩ := C09.all_round_trips_model r hr hp hn k.d h1.1 h1.2
+  have ek : k' = k := by rw [hk] at e'; exact (Except.ok.inj e').symm
+  subst ek
+  have hcur : (#[r] : Array Keys.Curve)[0]! = r := rfl
+  have fin : ∀ res : Res (Keys.VK), res = .ok k'.vk →
+      (viaLoader ⟨some 0, pv, pb⟩ (res.map (EcdhWire.ofKeysVK 0)) loadPublic).1 = ⟨some 0, pv, some (EcdhWire.ofKeysVK 0 k'.vk)⟩ := by
+    intro res e; subst e
+    simp [viaLoader, Except.map, loadPublic, EcdhWire.ofKeysVK]
+  cases op with
+  | loadPubBytes bs =>
+    obtain ⟨enc, t⟩ := hop
+    obtain ⟨bs', t1, t2⟩ := hvstr enc
+    have : bs' = bs := by rw [t] at t1; exact (Except.ok.inj t1).symm
+    subst this
+    simp only [step]
+    show (viaLoader ⟨some 0, pv, pb⟩ (if 0 < (#[r] : Array Keys.Curve).size then
+      (VK.fromString KeysWire.modelExt (#[r] : Array Keys.Curve)[0]! bs' true).map (EcdhWire.ofKeysVK 0) else .error .other) loadPublic).1 = _
+    rw [hcur]
+    simp only [List.size_toArray, List.length_cons, List.length_nil, Nat.zero_add, Nat.lt_one_iff, if_true]
+    exact fin _ t2
+  | loadPubDer bs =>
+    obtain ⟨enc, henc, t⟩ := hop
+    obtain ⟨bs', t1, t2, _⟩ := (hrest enc henc).1
+    have : bs' = bs := by rw [t] at t1; exact (Except.ok.inj t1).symm
+    subst this
+    simp only [step]
+    show (viaLoader ⟨some 0, pv, pb⟩ (EcdhWire.locate #[r] (VK.fromDer KeysWire.modelExt bs') (·.curve) EcdhWire.ofKeysVK) loadPublic).1 = _
+    rw [t2, locate_self r hr k'.vk (·.curve) EcdhWire.ofKeysVK hvc]
+    exact fin (.ok k'.vk) rfl
+  | loadPubPem bs =>
+    obtain ⟨enc, henc, t⟩ := hop
+    obtain ⟨_, _, _, pem, t1, t2⟩ := (hrest enc henc).1
+    have : pem = bs := by rw [t] at t1; exact (Except.ok.inj t1).symm
+    subst this
+    simp only [step]
+    show (viaLoader ⟨some 0, pv, pb⟩ (EcdhWire.locate #[r] (VK.fromPem KeysWire.modelExt pem) (·.curve) EcdhWire.ofKeysVK) loadPublic).1 = _
+    rw [t2, locate_self r hr k'.vk (·.curve) EcdhWire.ofKeysVK hvc]
+    exact fin (.ok k'.vk) rfl
+  | setCurve _ => exact absurd hop id
+  | genPriv _ => exact absurd hop id
+  | loadPriv _ => exact absurd hop id
+  | loadPrivBytes _ => exact absurd hop id
+  | loadPrivDer _ => exact absurd hop id
+  | loadPrivPem _ => exact absurd hop id
+  | getPub => exact absurd hop id
+  | loadPub _ => exact absurd hop id
+  | secret => exact absurd hop id
+  | secretBytes => exact absurd hop id
+
+omit [Fact r.p.Prime] in
+theorem fromSecexp_ok (d x y : Nat) (h1 : 1 ≤ d) (h2 : d < r.n)
+    (hp : KeysWire.pubPointModel r d = some ((x : Int), (y : Int))) (hv : ValidPoint KeysWire.modelExt r x y) :
+    SK.fromSecretExponent KeysWire.modelExt r (d : Int) = .ok ⟨r, d, ⟨r, x, y⟩⟩ := by
+  have hn0 : r.n ≠ 0 := by omega
+  unfold SK.fromSecretExponent
+  have hc : (1 ≤ (d : Int) ∧ (d : Int) < (r.n : Int)) := ⟨by omega, by omega⟩
+  have hpp : KeysWire.modelExt.pubPoint r d = some ((x : Int), (y : Int)) := hp
+  simp only [hc, and_self, not_true_eq_false, if_false, Int.toNat_natCast, hpp,
+    fromPublicPoint_novalidate KeysWire.modelExt r hn0 x y hv.1 hv.2.1]
+
+/-- the statement for arbitrary loaders: `opPA`, `opQA` are A's calls that load its private key and B's public key (any of
+the four resp. three ways, any encoding / format), `opPB`, `opQB` likewise for B -/
+def ExchangeAgreesAll (hr : r ∈ Gen.curveTable) (dA dB : Nat) : Prop :=
+  ∃ kA kB : Keys.SK, kA.d = dA ∧ kB.d = dB ∧
+    SK.fromSecretExponent KeysWire.modelExt r dA = .ok kA ∧ SK.fromSecretExponent KeysWire.modelExt r dB = .ok kB ∧
+    ∀ opPA opQA opPB opQB, PrivOp kA opPA → PubOp kB.vk opQA → PrivOp kB opPB → PubOp kA.vk opQB →
+      let env := EcdhWire.env #[r]
+      let C := Named.baseCtx r (Named.checked_of_mem hr)
+      let sA := run env ⟨none, none, none⟩ [.setCurve (some 0), opPA, opQA]
+      let sB := run env ⟨none, none, none⟩ [.setCurve (some 0), opPB, opQB]
+      (step env sA .secret).2 = (step env sB .secret).2 ∧
+      (step env sA .secretBytes).2 = (step env sB .secretBytes).2 ∧
+      getSharedSecret env sA = (if ((dA : ℤ) * (dB : ℤ)) • C.G = 0 then .error .invalidSharedSecret
+        else .ok (GroupInterface.xOf (((dA : ℤ) * (dB : ℤ)) • C.G)))
+
+/-- **named_exchange_agrees_all_loaders** — the exchange theorem for every combination of loaders: private key generated or
+loaded from bytes / DER (ssleay, PKCS#8) / PEM, peer's public key loaded from raw / uncompressed / compressed / hybrid bytes,
+DER or PEM -/
+theorem named_exchange_agrees_all_loaders (hr : r ∈ Gen.curveTable) (hn : r.n.Prime) (dA dB : Nat)
+    (hA : 1 ≤ dA ∧ dA < r.n) (hB : 1 ≤ dB ∧ dB < r.n) : ExchangeAgreesAll r hr dA dB := by
+  obtain ⟨xA, yA, pA, vA, rA⟩ := pubKey_denotes r hr hn dA hA.1 hA.2
+  obtain ⟨xB, yB, pB, vB, rB⟩ := pubKey_denotes r hr hn dB hB.1 hB.2
+  have eA := fromSecexp_ok r dA xA yA hA.1 hA.2 pA vA
+  have eB := fromSecexp_ok r dB xB yB hB.1 hB.2 pB vB
+  refine ⟨⟨r, dA, ⟨r, xA, yA⟩⟩, ⟨r, dB, ⟨r, xB, yB⟩⟩, rfl, rfl, eA, eB, ?_⟩
+  intro opPA opQA opPB opQB hPA hQA hPB hQB env C sA sB
+  have stA : sA = ⟨some 0, some (EcdhWire.ofKeysSK 0 ⟨r, dA, ⟨r, xA, yA⟩⟩), some (EcdhWire.ofKeysVK 0 ⟨r, xB, yB⟩)⟩ := by
+    show run env (step env (step env ⟨some 0, none, none⟩ opPA).1 opQA).1 [] = _
+    rw [priv_step r hr hn ⟨r, dA, ⟨r, xA, yA⟩⟩ eA hA opPA hPA _ rfl,
+      pub_step r hr hn ⟨r, dB, ⟨r, xB, yB⟩⟩ eB hB opQA hQA _ rfl]
+    rfl
+  have stB : sB = ⟨some 0, some (EcdhWire.ofKeysSK 0 ⟨r, dB, ⟨r, xB, yB⟩⟩), some (EcdhWire.ofKeysVK 0 ⟨r, xA, yA⟩)⟩ := by
+    show run env (step env (step env ⟨some 0, none, none⟩ opPB).1 opQB).1 [] = _
+    rw [priv_step r hr hn ⟨r, dB, ⟨r, xB, yB⟩⟩ eB hB opPB hPB _ rfl,
+      pub_step r hr hn ⟨r, dA, ⟨r, xA, yA⟩⟩ eA hA opQB hQB _ rfl]
+    rfl
+  have hp2 : r.p ≠ 2 := (Named.matches_row (Named.checked_of_mem hr) hn).hp2
+  have hu := C05g.driver_uses_curve_model #[r]
+  have kA : C05g.KeyPoint C (EcdhWire.ofKeysVK 0 ⟨r, xA, yA⟩).point (((dA : ℕ) : ℤ) • C.G) := ⟨_, rfl, rA, Or.inl rfl⟩
+  have kB : C05g.KeyPoint C (EcdhWire.ofKeysVK 0 ⟨r, xB, yB⟩).point (((dB : ℕ) : ℤ) • C.G) := ⟨_, rfl, rB, Or.inl rfl⟩
+  obtain ⟨h1, h2, h3, _⟩ := C05g.shared_secret_value hp2 C env hu sA sB
+    (EcdhWire.ofKeysSK 0 ⟨r, dA, ⟨r, xA, yA⟩⟩) (EcdhWire.ofKeysSK 0 ⟨r, dB, ⟨r, xB, yB⟩⟩)
+    (EcdhWire.ofKeysVK 0 ⟨r, xA, yA⟩) (EcdhWire.ofKeysVK 0 ⟨r, xB, yB⟩)
+    (by rw [stA]; exact ⟨rfl, rfl, rfl, rfl⟩) (by rw [stB]; exact ⟨rfl, rfl, rfl, rfl⟩) rfl kA kB
+  exact ⟨by rw [h1], by rw [h2], h3⟩
+
 /-! ### with the primality certificates of `Props/NamedPrimes`: no hypothesis left
 
 For the curves whose field prime and group order carry a kernel-checked certificate the theorem is unconditional. -/
@@ -198,7 +411,33 @@ theorem secp112r2_exchange_agrees (dA dB : Nat) (hA : 1 ≤ dA ∧ dA < Gen.curv
     ExchangeAgrees Gen.curve_SECP112r2 mem_SECP112r2 dA dB encA encB :=
   named_exchange_agrees Gen.curve_SECP112r2 mem_SECP112r2 NamedPrimes.prime_n_SECP112r2 dA dB hA hB encA encB
 
+open Named in
+/-- **P-256, unconditional, every loader** -/
+theorem nist256p_exchange_agrees_all_loaders (dA dB : Nat) (hA : 1 ≤ dA ∧ dA < Gen.curve_NIST256p.n)
+    (hB : 1 ≤ dB ∧ dB < Gen.curve_NIST256p.n) : ExchangeAgreesAll Gen.curve_NIST256p mem_NIST256p dA dB :=
+  named_exchange_agrees_all_loaders Gen.curve_NIST256p mem_NIST256p NamedPrimes.prime_n_NIST256p dA dB hA hB
+
 /-- non-vacuity: the scalar ranges are inhabited (d_A = 1, d_B = 2 on P-256) -/
 example : (1 ≤ 1 ∧ 1 < Gen.curve_NIST256p.n) ∧ (1 ≤ 2 ∧ 2 < Gen.curve_NIST256p.n) := by decide
+
+/-- the P-256 key pair with d = 1 (public point G) -/
+def k1 : Keys.SK := ⟨Gen.curve_NIST256p, 1, ⟨Gen.curve_NIST256p, Gen.curve_NIST256p.gx, Gen.curve_NIST256p.gy⟩⟩
+
+/-- non-vacuity of `PrivOp` / `PubOp`: the PKCS#8 DER of a P-256 private key with a compressed point, and the PEM of its public
+key with a hybrid point, are loader calls covered by the theorem (the serialisers succeed, evaluated by the kernel) -/
+example : (∃ bs, PrivOp k1 (.loadPrivDer bs)) ∧ (∃ bs, PubOp k1.vk (.loadPubPem bs)) ∧ (∃ bs, PrivOp k1 (.loadPrivBytes bs)) := by
+  have h1 : (match k1.toDer .compressed .pkcs8 with | .ok _ => true | .error _ => false) = true := by decide +kernel
+  have h2 : (match k1.vk.toPem .hybrid with | .ok _ => true | .error _ => false) = true := by decide +kernel
+  have h3 : (match k1.toString with | .ok _ => true | .error _ => false) = true := by decide +kernel
+  refine ⟨?_, ?_, ?_⟩
+  · cases h : k1.toDer .compressed .pkcs8 with
+    | ok bs => exact ⟨bs, .compressed, .pkcs8, by decide, h⟩
+    | error e => rw [h] at h1; cases h1
+  · cases h : k1.vk.toPem .hybrid with
+    | ok bs => exact ⟨bs, .hybrid, by decide, h⟩
+    | error e => rw [h] at h2; cases h2
+  · cases h : k1.toString with
+    | ok bs => exact ⟨bs, h⟩
+    | error e => rw [h] at h3; cases h3
 
 end C05x
